@@ -41,6 +41,13 @@ def grid_input(rng):
     return zone, e, n, ht
 
 
+def own_rot(lat, lon):
+    """local (east, north, up) -> Cartesian rotation, written out here (not the library's rotation_matrix)"""
+    la, lo = math.radians(lat), math.radians(lon)
+    sl, cl, so, co = math.sin(la), math.cos(la), math.sin(lo), math.cos(lo)
+    return np.array([[-so, -sl * co, cl * co], [co, -sl * so, cl * so], [0.0, cl, sl]])
+
+
 def call_of(fn, zone, e, n, ht, vcv=None):
     a = f'{fn.__name__}({zone}, {e!r}, {n!r}'
     if not isinstance(ht, str):
@@ -73,7 +80,7 @@ def compose(zone, e, n, ht, tset, vcv=None):
     vexp = None
     if vcv is not None:
         # local -> Cartesian at the input position, J Q J^T, Cartesian -> local at the transformed position
-        r1, r2 = np.asarray(ST.rotation_matrix(lat, lon)), np.asarray(ST.rotation_matrix(lat2, lon2))
+        r1, r2 = own_rot(lat, lon), own_rot(lat2, lon2)
         vc = r1 @ np.asarray(vcv, dtype=float) @ r1.T
         c = X.jqjt(x, y, z, X.params7(tset), vc, X.sd7(tset.tf_sd))
         vexp = r2.T @ c @ r2
@@ -161,7 +168,7 @@ def run(p):
             p.check(asym <= 1e-12 and ev >= -1e-12, 'mga:vcv-sym-psd', 'vcv_sym_psd', inp,
                     {'asymmetry_rel': asym, 'min_eig_over_trace': ev}, 'symmetric, positive semi-definite', call)
     # 3x1 variance column (the quantifier: "any symmetric PSD 3x3 or 3x1 variance column")
-    for _ in range(p.n(20, 300)):
+    for _ in range(p.n(60, 600)):
         zone, e, n, ht = grid_input(rng)
         col = np.array([[10 ** rng.uniform(-8, -2)] for _ in range(3)])
         for lbl, (fwd, bwd, mk) in DIRS.items():
@@ -187,12 +194,16 @@ def run(p):
             lat, lon, _, _ = CV.grid2geo(zone, e, n)
             x, y, z = CV.llh2xyz(lat, lon, 0 if isinstance(ht, str) else ht)
             tset = mk()
-            cc = ST.vcv_local2cart(col, lat, lon)
+            # independent of the library's covariance routines: own rotation matrices (columns east, north, up);
+            # a variance column is the diagonal of the rotated diagonal matrix, i.e. (R∘R) @ column
+            r1, r2 = own_rot(lat, lon), None
+            cc = (r1 ** 2) @ col
             c = X.jqjt(x, y, z, X.params7(tset), np.diag(cc[:, 0]), X.sd7(tset.tf_sd))
             x2, y2, z2, _ = T.conform7(x, y, z, tset)
             lat2, lon2, _ = CV.xyz2llh(x2, y2, z2)
-            col33 = ST.vcv_cart2local(c, lat2, lon2)
-            col31 = ST.vcv_cart2local(np.array([[c[0, 0]], [c[1, 1]], [c[2, 2]]]), lat2, lon2)
+            r2 = own_rot(lat2, lon2)
+            col33 = r2.T @ c @ r2
+            col31 = (r2.T ** 2) @ np.array([[c[0, 0]], [c[1, 1]], [c[2, 2]]])
             okv = False
             if out is not None:
                 out = np.asarray(out, dtype=float)
